@@ -75,8 +75,8 @@ var logCmd = &cobra.Command{
 		if err != nil {
 			return fmt.Errorf("%w: %s", ErrIOHandling, dirName)
 		}
-		if len(files) == 0 {
-			return fmt.Errorf("fatal: your current branch 'main' does not have any commits yet")
+		if len(files) == 0 || client.Head.Commit == nil {
+			return fmt.Errorf("fatal: your current branch '%s' does not have any commits yet", client.Head.Reference)
 		}
 
 		// print log
